@@ -244,6 +244,27 @@ func checkSplitGuards(p *load.Program, r *kit.Report, ph *ssa.Function, g *phGua
 	r.Check(badField == "", "GUARD-DOM", "ProcessHeader/foreign-split-loop", posOf(p, loopEq[0].If),
 		"refuses split.Height == previousHeight+1 && split.AfterHash.Equal(&hash)", badField)
 	exits := invalidLoopExit(ph, loopEq)
+	// every split is looked at: a split that does not match (other height, other hash) leads to the
+	// next one, it does not end the scan — the list is sorted highest first, so a `break` on the
+	// first height mismatch hides every later split
+	if header, loop := innermostLoop(ph, loopEq[0].If.Block()); header != nil && len(header.Instrs) > 0 {
+		var starts []kit.Pt
+		for _, g := range hg {
+			starts = append(starts, kit.EdgeStart(g.FailEdge()))
+		}
+		starts = append(starts, kit.EdgeStart(loopEq[0].FailEdge()))
+		bad := ""
+		for _, st := range starts {
+			if !loop[st.B] {
+				continue
+			}
+			rr := kit.Reach(ph, []kit.Pt{st}, kit.Opts{StopAt: func(in ssa.Instruction) bool { return in == header.Instrs[0] }})
+			if !rr.Has(header.Instrs[0]) {
+				bad = "a split that does not match ends the scan of the split list instead of going on with the next split: the split headers listed after it are no longer refused as wrong chain"
+			}
+		}
+		r.Check(bad == "", "GUARD-DOM", "ProcessHeader/foreign-split-loop-covers-all", posOf(p, loopEq[0].If), "a non-matching split leads to the next iteration", bad)
+	}
 	// refusal returns ErrWrongChain
 	{
 		reach := kit.Reach(ph, []kit.Pt{kit.EdgeStart(loopEq[0].PassEdge())}, kit.Opts{})
